@@ -138,6 +138,18 @@ def run_studio(ctx, seed):
             finally:
                 os.rename, os.replace, os.link = orig
             ctx.count('studios_after_an_interrupt_armed_resave')
+        if seed % 7 == 4:
+            # some complete recordings were made by an older release that did not write the "incomplete" flag at all (the default lookup
+            # asks for [False, None] precisely to select those as well): stored again, same id, without that entry
+            from playback.recordings.memory.memory_recording import MemoryRecording
+            for c in cats:
+                for k, (rid, tok) in enumerate(saved[c]):
+                    if k % 2 == 0:
+                        src = box.cassette.get_recording(rid)
+                        md = dict(src.get_metadata())
+                        md.pop(TapeRecorder.INCOMPLETE_RECORDING, None)
+                        box.cassette.save_recording(MemoryRecording(rid, recording_data=dict(src.recording_data), recording_metadata=md))
+                        ctx.count('recordings_without_an_incomplete_flag')
         tok_of = {rid: tok for c in cats for rid, tok in saved[c] + incomplete[c]}
 
         state = {'journal': [], 'failing': set(failing)}
@@ -206,12 +218,25 @@ def run_studio(ctx, seed):
             """One play() of the SAME studio object (a regression job keeps its studio and plays it again and again)."""
             state['journal'] = journal = []
             state['failing'] = set(failing_now)
+            import playback.studio.equalizer as _eqmod
+            import time as _time
+            real_time = getattr(_eqmod, 'time', None)
+            if seed % 20 in (13, 6) and real_time is _time.time:
+                # the regression job runs under a frozen clock: the clock the equalizer reads does not advance during the run
+                frozen = _time.time()
+                _eqmod.time = lambda: frozen
+                ctx.count('studio_runs_under_a_frozen_clock')
             try:
                 res = studio.play()
+                if seed % 20 in (13, 6):
+                    res = {c: (g if isinstance(g, Exception) else list(g)) for c, g in res.items()}    # (drained while the clock stands still)
             except Exception as ex:
                 ctx.violation('studio.play() raised %s: a category whose tuning cannot be created yields that error for that category alone' % type(ex).__name__,
                               dict(w, failing_now=sorted(failing_now)))
                 raise env.EnoughViolations() if len(ctx.violations) > 20 else _StudioFailed()
+            finally:
+                if real_time is not None:
+                    _eqmod.time = real_time
             out = {c: ([] if not isinstance(g, Exception) else g) for c, g in res.items()}
             gens = {c: iter(g) for c, g in res.items() if not isinstance(g, Exception)}
             crng = random.Random(seed + 2)
